@@ -1,4 +1,224 @@
-(* C13 - placeholder while the proofs are being written *)
-From Coq Require Import List NArith Bool.
-From SSV Require Import ExecClient.Model.
+(* C13 - Every finalized-enough block's events are delivered once, in order.
+   This file contains only statements, each closed by [exact], Print Assumptions, and Examples.
+
+   Model: ExecClient/Model.v (StreamLogs / streamLogsToChan / fetchLogsInBatches / PackLogs /
+   FetchHistoricalLogs as coded after commit dfd84eefb, plus SyncHistory -> SyncOngoing as glued by
+   cli/operator/node.go).  Vocabulary: ExecClient/Spec.v.
+     visible ch b   the non-removed logs of block b, in node order
+     shown ch b     the same after PackLogs' (stable) sort by transaction index
+     covered ch a c the entries (b, shown ch b) for the blocks a <= b < c with visible ch b <> []
+     stream_ok ch from cur es :=
+        from <= cur /\ block numbers of es strictly increasing /\
+        every entry e of es has from <= e_block e < cur and e_logs e = shown ch (e_block e) /\
+        es without its empty entries = covered ch from cur
+   All statements hold for every chain, start block, follow distance, batch size >= 1 and every
+   environment schedule (list of events: subscribe ok/fail, head with a scripted failure of its
+   k-th eth_getLogs call, subscription error, connection drop, cancellation).
+   Numbers are unbounded N; Go's uint64 arithmetic agrees as long as head - follow + batch < 2^64
+   for every head (C13_nothing_beyond_heads bounds every block number the client computes with). *)
+From Coq Require Import List NArith Bool Sorted Permutation.
+From SSV Require Import ExecClient.Model ExecClient.Spec ExecClient.Proofs
+                        ExecClient.OldModel ExecClient.OldProofs.
 Import ListNotations.
+Local Open Scope N_scope.
+
+(* The delivered stream, with the empty batch markers taken out, is exactly the chain's blocks with
+   non-removed logs from the start block up to the client's cursor, each once, in block order, each
+   with exactly its logs; block numbers (markers included) increase strictly; nothing lies outside
+   [from, cursor). *)
+Theorem C13_stream : forall c ch from evs s out,
+  1 <= batch c -> stream c ch from evs = (s, out) ->
+  stream_ok ch from (s_cur s) (entries_of out).
+Proof. exact stream_final. Qed.
+Print Assumptions C13_stream.
+
+(* The same in the words of the property: for every block between the start and the cursor that
+   emitted non-removed logs there is exactly one entry, and it carries exactly those logs. *)
+Theorem C13_exactly_once : forall c ch from evs s out,
+  1 <= batch c -> stream c ch from evs = (s, out) ->
+  forall b, from <= b < s_cur s -> visible ch b <> [] ->
+  exists! e, In e (entries_of out) /\ e_block e = b /\ e_logs e = shown ch b.
+Proof. exact stream_exactly_once. Qed.
+Print Assumptions C13_exactly_once.
+
+(* "in order": on a chain as execution nodes present it (a block's logs listed by log index, so
+   transaction indices do not decrease) the entry carries the logs in the node's order. *)
+Theorem C13_in_order : forall ch b, chain_ordered ch -> shown ch b = visible ch b.
+Proof. exact shown_ordered. Qed.
+Print Assumptions C13_in_order.
+
+(* How far the cursor is: whenever the client is idle again after a head h >= follow, every block
+   up to h - follow is below the cursor (hence delivered, by C13_stream); a head whose fetch meets
+   no failure always ends idle; the cursor never moves back. *)
+Theorem C13_coverage : forall c ch s h fs s' o,
+  1 <= batch c -> s_mode s = MIdle -> step c ch s (EHead h fs) = (s', o) -> s_mode s' = MIdle ->
+  follow c <= h -> h - follow c < s_cur s'.
+Proof. exact head_idle_covers. Qed.
+Print Assumptions C13_coverage.
+
+Theorem C13_head_without_failure_ends_idle : forall c ch s h s' o,
+  1 <= batch c -> s_mode s = MIdle -> step c ch s (EHead h None) = (s', o) -> s_mode s' = MIdle.
+Proof. exact head_ok_idle. Qed.
+Print Assumptions C13_head_without_failure_ends_idle.
+
+Theorem C13_cursor_monotone : forall c ch, 1 <= batch c ->
+  forall evs s s' o, run c ch s evs = (s', o) -> s_cur s <= s_cur s'.
+Proof. exact run_cur_mono. Qed.
+Print Assumptions C13_cursor_monotone.
+
+(* No entry for a block outside: the cursor (which bounds every entry, C13_stream) and every
+   eth_getLogs call stay at or below the highest head - follow of the schedule. *)
+Theorem C13_nothing_beyond_heads : forall c ch from evs s out,
+  1 <= batch c -> stream c ch from evs = (s, out) ->
+  from <= s_cur s /\ s_cur s <= N.max from (reach c evs) /\
+  Forall (fun q => snd q < N.max from (reach c evs)) (queries_of out).
+Proof. exact stream_reach. Qed.
+Print Assumptions C13_nothing_beyond_heads.
+
+(* Entries with no logs occur only as batch-end markers: such an entry is the upper end of an
+   eth_getLogs call made by the client whose whole range has no non-removed log. *)
+Theorem C13_markers : forall c ch from evs s out,
+  1 <= batch c -> stream c ch from evs = (s, out) ->
+  Forall (marker_ok ch (queries_of out)) (entries_of out) /\
+  Forall (fun q => from <= fst q /\ fst q <= snd q) (queries_of out).
+Proof. exact stream_markers. Qed.
+Print Assumptions C13_markers.
+
+(* "regardless of how logs are batched and of failures": what is delivered up to a cursor does
+   not depend on the batch size, the follow distance or the schedule that led there. *)
+Theorem C13_batching_irrelevant : forall c1 c2 ch from evs1 evs2 s1 out1 s2 out2,
+  1 <= batch c1 -> 1 <= batch c2 ->
+  stream c1 ch from evs1 = (s1, out1) -> stream c2 ch from evs2 = (s2, out2) ->
+  s_cur s1 = s_cur s2 ->
+  filter nonempty (entries_of out1) = filter nonempty (entries_of out2).
+Proof. exact batching_irrelevant. Qed.
+Print Assumptions C13_batching_irrelevant.
+
+(* Once the stream has ended (gracefully, or by logger.Fatal after the third consecutive failure)
+   nothing more is delivered. *)
+Theorem C13_silent_after_end : forall c ch evs s,
+  s_mode s = MDone \/ s_mode s = MFatal -> entries_of (snd (run c ch s evs)) = [].
+Proof. exact ended_silent. Qed.
+Print Assumptions C13_silent_after_end.
+
+(* FetchHistoricalLogs (through SyncHistory): whatever happens, what the handler received is a
+   correct prefix ending at the last delivered block; on success it reaches the node's block
+   number minus the follow distance. *)
+Theorem C13_history : forall c ch from bn fs o r,
+  1 <= batch c -> history c ch from bn fs = (o, r) ->
+  stream_ok ch from (advance from (entries_of o)) (entries_of o) /\
+  Forall (marker_ok ch (queries_of o)) (entries_of o).
+Proof. exact history_final. Qed.
+Print Assumptions C13_history.
+
+Theorem C13_history_complete : forall c ch from bn fs o last,
+  1 <= batch c -> history c ch from bn fs = (o, HOk last) ->
+  exists cur, bn = Some cur /\ follow c <= cur /\
+    advance from (entries_of o) = last + 1 /\ last <= cur - follow c /\
+    covered ch from (last + 1) = covered ch from (cur - follow c + 1).
+Proof. exact history_ok. Qed.
+Print Assumptions C13_history_complete.
+
+(* SyncHistory(from) followed by SyncOngoing where cli/operator/node.go resumes: one stream from
+   the original start block. *)
+Theorem C13_sync : forall c ch from bn fs evs s out,
+  1 <= batch c -> sync c ch from bn fs evs = (Some s, out) ->
+  stream_ok ch from (s_cur s) (entries_of out).
+Proof. exact sync_final. Qed.
+Print Assumptions C13_sync.
+
+Theorem C13_sync_exactly_once : forall c ch from bn fs evs s out,
+  1 <= batch c -> sync c ch from bn fs evs = (Some s, out) ->
+  forall b, from <= b < s_cur s -> visible ch b <> [] ->
+  exists! e, In e (entries_of out) /\ e_block e = b /\ e_logs e = shown ch b.
+Proof. exact sync_exactly_once. Qed.
+Print Assumptions C13_sync_exactly_once.
+
+(* PackLogs on any list: strictly increasing block numbers, every entry non-empty and of one
+   block, nothing lost or invented, sorted stably by (block, transaction index). *)
+Theorem C13_pack_logs : forall l,
+  StronglySorted N.lt (map e_block (pack_logs l)) /\
+  flat_map e_logs (pack_logs l) = sort l /\
+  Permutation l (sort l) /\
+  (forall k, filter (same_key k) (sort l) = filter (same_key k) l) /\
+  (forall e, In e (pack_logs l) ->
+     e_logs e <> [] /\ forall x, In x (e_logs e) -> l_block x = e_block e).
+Proof. exact pack_logs_spec. Qed.
+Print Assumptions C13_pack_logs.
+
+(* A slice that is already in (block, transaction index) order - everything an execution node
+   returns - is left alone by the sort, so no reliance on stability there. *)
+Theorem C13_sorted_input_untouched : forall l, ksorted l -> sort l = l.
+Proof. exact sort_sorted_id. Qed.
+Print Assumptions C13_sorted_input_untouched.
+
+(* The fuel of the batch loop is its exact number of iterations. *)
+Theorem C13_batch_loop_fuel_exact : forall bsz start end_, 1 <= bsz -> start <= end_ ->
+  exists n, iterations bsz start end_ = S n /\
+            start + N.of_nat n * bsz <= end_ /\ end_ < start + (N.of_nat n + 1) * bsz.
+Proof. exact iterations_exact. Qed.
+Print Assumptions C13_batch_loop_fuel_exact.
+
+(* Regression witness (finding F2): the cursor logic before commit dfd84eefb refutes C13_stream. *)
+Theorem C13_prefix_code_refuted : exists c ch from evs,
+  1 <= batch c /\
+  let '(s, out) := old_stream c ch from evs in ~ stream_ok ch from (o_cur s) (entries_of out).
+Proof. exact old_refuted. Qed.
+Print Assumptions C13_prefix_code_refuted.
+
+Theorem C13_prefix_code_restarts_at_block_1 :
+  let '(s, out) := old_stream w_cfg w_chain 2 w_restart in
+  exists e, In e (entries_of out) /\ e_block e < 2.
+Proof. exact old_restarts_at_block_1. Qed.
+Print Assumptions C13_prefix_code_restarts_at_block_1.
+
+(* Non-vacuity: follow distance 1, batches of 2; block 3 has two logs, block 5 a removed one,
+   block 6 three (one removed), block 9 one.  The schedule has a failed subscribe, a fetch error
+   in the second batch, a subscription error, a connection drop during a fetch, an old head and a
+   head below the follow distance; the F2 histories are sub-histories of it. *)
+Definition ex_cfg : cfg := {| follow := 1; batch := 2 |}.
+Definition lg (tx idx : N) (rm : bool) : clog := {| c_tx := tx; c_idx := idx; c_removed := rm |}.
+Definition ex_chain : chain := fun b =>
+  if b =? 3 then [lg 0 0 false; lg 1 1 false]
+  else if b =? 5 then [lg 0 0 true]
+  else if b =? 6 then [lg 0 0 false; lg 0 1 true; lg 2 2 false]
+  else if b =? 9 then [lg 4 7 false]
+  else [].
+Definition ex_evs : list event :=
+  [ ESubFail; ESubOk; EHead 0 None; EHead 6 (Some (1%nat, FErr)); ESubOk; ESubErr; ESubOk;
+    EHead 5 None; EHead 9 (Some (1%nat, FDrop)); ESubOk; EHead 11 None ].
+
+Definition mk (b : N) (l : list (N * N)) : entry :=
+  {| e_block := b;
+     e_logs := map (fun p => {| l_block := b; l_tx := fst p; l_idx := snd p; l_removed := false |}) l |}.
+
+Example C13_example :
+  entries_of (snd (stream ex_cfg ex_chain 2 ex_evs)) =
+    [ mk 3 [(0, 0); (1, 1)]; mk 4 []; mk 6 [(0, 0); (2, 2)]; mk 8 []; mk 9 [(4, 7)] ]
+  /\ queries_of (snd (stream ex_cfg ex_chain 2 ex_evs)) =
+    [ (2, 3); (4, 5); (4, 4); (5, 6); (7, 8); (7, 8); (9, 10) ]
+  /\ s_cur (fst (stream ex_cfg ex_chain 2 ex_evs)) = 11
+  /\ s_mode (fst (stream ex_cfg ex_chain 2 ex_evs)) = MIdle
+  /\ 1 <= batch ex_cfg.
+Proof. vm_compute. repeat split; try reflexivity. discriminate. Qed.
+
+Example C13_example_chain_ordered : chain_ordered ex_chain.
+Proof.
+  intros b. unfold ex_chain.
+  destruct (b =? 3); [repeat constructor; discriminate|].
+  destruct (b =? 5); [repeat constructor|].
+  destruct (b =? 6); [repeat constructor; discriminate|].
+  destruct (b =? 9); repeat constructor.
+Qed.
+
+(* three consecutive failures without progress end in logger.Fatal *)
+Example C13_example_fatal :
+  s_mode (fst (stream ex_cfg ex_chain 2 [ESubFail; ESubOk; ESubErr; ESubOk; EDrop])) = MFatal.
+Proof. vm_compute. reflexivity. Qed.
+
+(* history up to block 9 - 1, then the stream resumes after the last processed block *)
+Example C13_example_sync :
+  let r := sync ex_cfg ex_chain 2 (Some 9) None [ESubOk; EHead 11 None] in
+  map e_block (entries_of (snd r)) = [3; 5; 6; 8; 9] /\
+  option_map s_cur (fst r) = Some 11.
+Proof. vm_compute. split; reflexivity. Qed.
